@@ -330,7 +330,8 @@ func c02Config(c *engine.Ctx, name string, m ref.Msg, mi, si int, senderI bool) 
 	for e := 1; e <= 16; e++ {
 		for _, fill := range []byte{0x00, 0xff} {
 			x := append(univ.Fill(e, fill), g1...)
-			try(x, "extension-front", func(cs *c02Case) { cs.ParseH = e%2 == 0 })
+			try(x, "extension-front", nil)
+			try(x, "extension-front", func(cs *c02Case) { cs.ParseH = true })
 		}
 		if e <= len(g1) {
 			try(append(append([]byte(nil), g1[:e]...), g1...), "extension-front", nil)
